@@ -192,7 +192,20 @@ def run(prog):
                             carried[r[1]] = cs
                 for v, cs0 in sorted(carried.items()):
                     mu = ("mu", h, v)
+                    # made afresh in every iteration (`let mut part = Vec::new();` inside the body): not carried by this loop
+                    fresh_in_body = False
+                    for b_ in body:
+                        t_ = g.blocks[b_]["term"]
+                        if t_["k"] == "call" and t_["dest"]["l"] == v and not t_["dest"]["proj"] and \
+                                ((t_.get("fn") or {}).get("def") or "").rsplit("::", 1)[-1] in ("new", "with_capacity", "default"):
+                            fresh_in_body = True
+                    if fresh_in_body:
+                        continue
                     used = te.ret is not None and (strip(te.ret) == mu or mu in set(mir.subterms(te.ret)))
+                    # ... or it is what a later loop starts from
+                    for (h2, l2), init2 in te.mu_init.items():
+                        if h2 != h and h2 not in body and (strip(init2) == mu or mu in set(mir.subterms(init2))):
+                            used = True
                     for cs in te.calls:
                         if used:
                             break
